@@ -3,7 +3,7 @@
     normalising wrappers is the exact root with its remainder (all inputs: the subtraction n - s^2 is checked);
     every u8 / u16 value is answered within the stated number of correction steps (finite, by computation);
     the tables and guard constants are those regenerated from the source. *)
-From Dashu Require Import Base.Prelude Int.GrlSpec Int.GrlModel Int.GrlSqrtProof Int.GrlKsqrt Int.GrlLehmer Int.GrlLog2Tab Int.GrlLog2TabProof Int.GrlPrimRoot.
+From Dashu Require Import Base.Prelude Int.GrlSpec Int.GrlModel Int.GrlSqrtProof Int.GrlKsqrt Int.GrlKsqrtProof Int.GrlLehmer Int.GrlLog2Tab Int.GrlLog2TabProof Int.GrlPrimRoot.
 From DashuGen Require Import RootTabs.
 Open Scope Z_scope.
 
@@ -329,3 +329,208 @@ Example prim_root_examples :
   prim_sqrt_rem_asis 3 64 (2 ^ 63 + 12345) = Ok (3037000499, 5928539152) /\
   prim_cbrt_rem_asis 4 32 4000000000 = Ok (1587, 3030997).
 Proof. vm_compute. repeat split; reflexivity. Qed.
+
+(** * u128: the Karatsuba step over the u64 routine *)
+
+(** u128: one Karatsuba step (KBITS = 32) over the u64 routine - an answer is the exact root and remainder *)
+Theorem nsqrt128_sound : forall fuel A S R, A < 2 ^ 128 -> nsqrt128 fuel A = Ok (S, R) -> S = Z.sqrt A /\ R = A - S * S.
+Proof.
+  intros fuel A S R HA2. unfold nsqrt128.
+  destruct (Z.ltb_spec A (2 ^ 126)) as [|HA1]; [discriminate|].
+  set (W := 2 ^ 32). set (H := 2 ^ 31).
+  assert (W = 2 * H) as EW by reflexivity. assert (2 <= H) as HH by (unfold H; lia).
+  assert (4 <= W) as HW4 by (unfold W; lia).
+  change T64 with (W * W). change T128 with ((W * W) * (W * W)).
+  change (2 ^ 128) with ((W * W) * (W * W)) in HA2. change (2 ^ 126) with (H * H * (W * W)) in HA1.
+  assert (0 <= A) as HA0.
+  { assert (0 <= H * H * (W * W)) by (apply Z.mul_nonneg_nonneg; apply Z.square_nonneg). lia. }
+  set (hd := A / (W * W)). set (b := A mod (W * W)).
+  assert (0 <= b < W * W) as Hb by (apply Z.mod_pos_bound; lia).
+  assert (A = hd * (W * W) + b) as EA0 by (unfold hd, b; rewrite Z.mul_comm; apply Z.div_mod; lia).
+  assert (H * H <= hd < W * W) as Hhd.
+  { unfold hd. split; [apply Z.div_le_lower_bound; lia | apply Z.div_lt_upper_bound; lia]. }
+  destruct (nsqrt64 fuel hd) as [[s1 r1]|?|?|] eqn:E64; cbn [rbind]; try discriminate.
+  destruct (nsqrt64_sound _ _ _ _ E64) as [Es1 Er1].
+  assert (H <= s1 < W) as Hs1.
+  { rewrite Es1. split; [apply Z.sqrt_le_square; lia | apply Z.sqrt_lt_square; lia]. }
+  pose proof (Z.sqrt_spec hd ltac:(lia)) as Hsp. rewrite <- Es1 in Hsp. unfold Z.succ in Hsp.
+  assert (0 <= r1 <= 2 * s1) as Hr1 by lia.
+  assert (hd = s1 * s1 + r1) as Ehd by lia.
+  clear Hsp Es1 Er1 E64. clearbody hd b.
+  (* the two words of b *)
+  pose proof (Z.div_mod b W ltac:(lia)) as Db. pose proof (Z.mod_pos_bound b W ltac:(lia)) as Ha0.
+  assert (0 <= b / W < W) as Ha1 by (split; [apply Z.div_pos; lia | apply Z.div_lt_upper_bound; lia]).
+  set (a0 := b mod W) in *. set (a1 := b / W) in *.
+  assert (A = hd * (W * W) + a1 * W + a0) as EA by lia.
+  pose proof (Z.div_mod a1 2 ltac:(lia)) as Da1. pose proof (Z.mod_pos_bound a1 2 ltac:(lia)) as Ha1p.
+  set (a1h := a1 / 2) in *. set (bit := a1 mod 2) in *.
+  assert (b / 2 ^ 33 = a1h) as Eb33.
+  { change (2 ^ 33) with (W * 2). rewrite <- Z.div_div by lia. reflexivity. }
+  assert (b mod 2 ^ 33 = bit * W + a0) as Ebm.
+  { change (2 ^ 33) with (W * 2). rewrite Z.rem_mul_r by lia. fold a0 a1 bit. ring. }
+  rewrite Eb33, Ebm. clearbody a0 a1 a1h bit. clear Eb33 Ebm Db.
+  (* r0 *)
+  rewrite (Z.mod_small (r1 * 2 ^ 31)) by (fold H; assert (r1 * H <= (2 * s1) * H) by (apply Z.mul_le_mono_nonneg_r; lia);
+     assert (0 <= r1 * H) by (apply Z.mul_nonneg_nonneg; lia); assert ((2 * s1) * H < W * W) by (rewrite EW; nia); lia).
+  rewrite (lor_disjoint r1 a1h 31) by (fold H; lia). fold H.
+  set (r0 := r1 * H + a1h).
+  assert (2 * r0 + bit = r1 * W + a1) as Er0 by (unfold r0; rewrite EW; lia).
+  assert (0 <= r0) as Hr0 by (unfold r0; assert (0 <= r1 * H) by (apply Z.mul_nonneg_nonneg; lia); lia).
+  clearbody r0.
+  assert (s1 =? 0 = false) as E0 by (apply Z.eqb_neq; lia). rewrite E0. cbv iota. clear E0.
+  pose proof (Z.div_mod r0 s1 ltac:(lia)) as Dq. pose proof (Z.mod_pos_bound r0 s1 ltac:(lia)) as Hu0.
+  assert (0 <= r0 / s1 <= W) as Hq0.
+  { split; [apply Z.div_pos; lia|]. assert (r0 / s1 < W + 1); [|lia]. apply Z.div_lt_upper_bound; [lia|].
+    assert (r1 * W <= (2 * s1) * W) by (apply Z.mul_le_mono_nonneg_r; lia). lia. }
+  set (q0 := r0 / s1) in *. set (u0 := r0 mod s1) in *. clearbody q0 u0.
+  change (2 ^ 32) with W.
+  assert (exists q u', (if 0 <? q0 / W then (q0 - 1, u0 + s1) else (q0, u0)) = (q, u')
+     /\ r0 = s1 * q + u' /\ 0 <= q <= W - 1 /\ 0 <= u' < 2 * s1
+     /\ (u' < s1 \/ (q = W - 1 /\ 2 * (u' - s1) + bit <= W - 1))) as [q [u' [Eq [Er0q [Hq [Hu' Hcase]]]]]].
+  { destruct (Z.eq_dec q0 W) as [e|e].
+    - rewrite e, Z.div_same by lia. change (0 <? 1) with true. cbv iota.
+      eexists; eexists; split; [reflexivity|]. split; [lia|]. split; [lia|]. split; [lia|]. right. split; [reflexivity|].
+      assert (r1 * W <= (2 * s1) * W) by (apply Z.mul_le_mono_nonneg_r; lia). lia.
+    - rewrite Z.div_small by lia. change (0 <? 0) with false. cbv iota.
+      eexists; eexists; split; [reflexivity|]. split; [lia|]. split; [lia|]. split; [lia|]. left. lia. }
+  rewrite Eq. cbv beta iota.
+  assert (4 * W <= W * W) as H4W by (apply Z.mul_le_mono_nonneg_r; lia).
+  assert (W * W <=? u' = false) as Eov by (apply Z.leb_gt; lia).
+  rewrite Eov. cbv iota.
+  (* s = s1*W + q *)
+  assert (s1 * W <= (W - 1) * W) as Hs1W by (apply Z.mul_le_mono_nonneg_r; lia).
+  assert (H * W <= s1 * W) as Hs1W' by (apply Z.mul_le_mono_nonneg_r; lia).
+  rewrite (Z.mod_small (s1 * W)) by lia.
+  assert (forall hi lo, 0 <= lo < W -> Z.lor (hi * W) lo = hi * W + lo) as LorW by (intros hi lo Hlo; apply (lor_disjoint hi lo 32); [lia|exact Hlo]).
+  rewrite (LorW s1 q) by lia.
+  (* r = u_lo * W + a0 with u = 2u' + bit *)
+  set (u := u' * 2 + bit).
+  pose proof (Z.div_mod u' H ltac:(lia)) as Du'. pose proof (Z.mod_pos_bound u' H ltac:(lia)) as Hum.
+  assert (u / W = u' / H /\ u mod W = 2 * (u' mod H) + bit) as [Euh Eul].
+  { assert (u = W * (u' / H) + (2 * (u' mod H) + bit)) as Eu by (unfold u; rewrite EW; lia).
+    split; [symmetry; apply (Z.div_unique_pos _ _ _ (2 * (u' mod H) + bit)); lia
+           | symmetry; apply (Z.mod_unique_pos _ _ (u' / H)); lia]. }
+  assert ((u' * 2 ^ 33) mod (W * W) = (u' mod H) * 2 ^ 33) as Em33.
+  { change (W * W) with (H * 2 ^ 33). apply Z.mul_mod_distr_r; lia. }
+  rewrite Em33. rewrite (lor_disjoint (u' mod H) (bit * W + a0) 33) by (change (2 ^ 33) with (2 * W); lia).
+  replace (u' mod H * 2 ^ 33 + (bit * W + a0)) with (a0 + (u mod W) * W) by (rewrite Eul; change (2 ^ 33) with (2 * W); ring).
+  change (2 ^ 31) with H. rewrite <- Euh.
+  assert (r1 * W + a1 = 2 * s1 * q + u) as Hid by (unfold u; lia).
+  assert (0 <= u < 4 * s1) as Hu by (unfold u; lia).
+  pose proof (Z.div_mod u W ltac:(lia)) as Du. pose proof (Z.mod_pos_bound u W ltac:(lia)) as Hul.
+  assert (0 <= u / W <= 3) as Huh.
+  { split; [apply Z.div_pos; lia|]. assert (u / W < 4) by (apply Z.div_lt_upper_bound; lia). lia. }
+  rewrite as_i8_small by lia.
+  set (ul := u mod W) in *. set (uh := u / W) in *.
+  assert (0 <= q * q <= (W - 1) * (W - 1)) as Hqq.
+  { split; [apply Z.square_nonneg | apply Z.mul_le_mono_nonneg; lia]. }
+  assert (chk (W * W) (q * q) = Ok (q * q)) as Echk.
+  { unfold chk. assert (0 <=? q * q = true) as -> by (apply Z.leb_le; lia).
+    assert (q * q <? W * W = true) as -> by (apply Z.ltb_lt; lia). reflexivity. }
+  rewrite Echk. cbn [rbind].
+  assert (0 <= a0 + ul * W < W * W) as Hx.
+  { assert (ul * W <= (W - 1) * W) by (apply Z.mul_le_mono_nonneg_r; lia).
+    assert (0 <= ul * W) by (apply Z.mul_nonneg_nonneg; lia). lia. }
+  assert ((a0 + ul * W - q * q) mod (W * W) = a0 + ul * W - q * q + W * W * GrlKsqrt.b2z (a0 + ul * W <? q * q)) as Esub.
+  { pose proof (sub_ip_spec (W * W) (a0 + ul * W) (q * q) ltac:(lia) ltac:(lia)) as E. exact (f_equal fst E). }
+  rewrite Esub. clear Esub.
+  set (bo := GrlKsqrt.b2z (a0 + ul * W <? q * q)). assert (0 <= bo <= 1) as Hbo by apply b2z_range.
+  set (r := a0 + ul * W - q * q + W * W * bo).
+  assert (0 <= r < W * W) as Hr.
+  { unfold r, bo. destruct (Z.ltb_spec (a0 + ul * W) (q * q)); cbn [GrlKsqrt.b2z]; lia. }
+  set (c := uh - bo).
+  set (Rm := u * W + a0 - q * q).
+  assert (Rm = c * (W * W) + r) as ER by (unfold Rm, c, r; rewrite Du; ring).
+  set (Sm := s1 * W + q).
+  assert (A = Sm * Sm + Rm) as EAS.
+  { rewrite EA, Ehd. unfold Rm, Sm.
+    replace ((s1 * s1 + r1) * (W * W) + a1 * W + a0) with (s1 * s1 * W * W + (r1 * W + a1) * W + a0) by ring.
+    rewrite Hid. ring. }
+  assert (0 < Sm < W * W) as HS by (unfold Sm; lia).
+  assert (0 < W * W) as HWW by lia.
+  assert (forall cc lo RR SS, 0 <= lo < W * W -> RR = cc * (W * W) + lo -> 0 <= RR <= 2 * SS -> SS < W * W ->
+            (cc mod (W * W * (W * W)) * (W * W)) mod (W * W * (W * W)) + lo = RR) as Hpack.
+  { intros cc lo RR SS Hlo ERR HRR HSS.
+    assert (cc = 0 \/ cc = 1) as [-> | ->].
+    { destruct (Z.lt_ge_cases cc 0); [exfalso; assert (cc * (W * W) <= (-1) * (W * W)) by (apply Z.mul_le_mono_nonneg_r; lia); lia|].
+      destruct (Z.lt_ge_cases cc 2); [lia|exfalso]. assert (2 * (W * W) <= cc * (W * W)) by (apply Z.mul_le_mono_nonneg_r; lia). lia. }
+    - rewrite Zmod_0_l; try rewrite Z.mul_0_l; try rewrite Zmod_0_l; lia.
+    - assert (1 < W * W * (W * W)) by (assert (W * W * 1 < W * W * (W * W)) by (apply Z.mul_lt_mono_pos_l; lia); lia).
+      rewrite (Z.mod_small 1) by lia. rewrite Z.mul_1_l.
+      rewrite Z.mod_small by (assert (W * W * 1 < W * W * (W * W)) by (apply Z.mul_lt_mono_pos_l; lia); lia). lia. }
+  destruct (Z.ltb_spec c 0) as [Cn|Cp].
+  - assert (Rm < 0) as HRn by (assert (c * (W * W) <= (-1) * (W * W)) by (apply Z.mul_le_mono_nonneg_r; lia); lia).
+    replace (q + s1 * W) with Sm by (unfold Sm; ring).
+    rewrite add_ip_spec by lia. cbv beta iota.
+    assert (Sm =? 0 = false) as E0 by (apply Z.eqb_neq; lia). rewrite E0. cbv iota.
+    set (c1 := GrlKsqrt.b2z (W * W <=? r + Sm)). assert (0 <= c1 <= 1) as Hc1 by apply b2z_range.
+    set (r2 := r + Sm - W * W * c1).
+    assert (0 <= r2 < W * W) as Hr2.
+    { unfold r2, c1. destruct (Z.leb_spec (W * W) (r + Sm)); cbn [GrlKsqrt.b2z]; lia. }
+    rewrite add_ip_spec by lia. cbv beta iota.
+    set (c2 := GrlKsqrt.b2z (W * W <=? r2 + (Sm - 1))). assert (0 <= c2 <= 1) as Hc2 by apply b2z_range.
+    set (r3 := r2 + (Sm - 1) - W * W * c2).
+    assert (0 <= r3 < W * W) as Hr3.
+    { unfold r3, c2. destruct (Z.leb_spec (W * W) (r2 + (Sm - 1))); cbn [GrlKsqrt.b2z]; lia. }
+    set (R' := Rm + 2 * Sm - 1).
+    assert (R' = (c + c1 + c2) * (W * W) + r3) as ER' by (unfold R', r3, r2; rewrite ER; ring).
+    assert (0 <= R') as HR'.
+    { unfold R', Rm, Sm. assert (0 <= u * W) by (apply Z.mul_nonneg_nonneg; lia).
+      replace ((W - 1) * (W - 1)) with (W * W - 2 * W + 1) in Hqq by ring.
+      assert (2 * H * W = W * W) by (rewrite EW; ring). lia. }
+    intros E. apply Ok_inj in E.
+    rewrite (Hpack (c + c1 + c2) r3 R' (Sm - 1) Hr3 ER' ltac:(unfold R' in *; lia) ltac:(lia)) in E.
+    assert (S = Sm - 1 /\ R = R') as [-> ->] by (split; congruence).
+    assert (A = (Sm - 1) * (Sm - 1) + R') as EA' by (unfold R'; rewrite EAS; ring).
+    split; [symmetry; apply (sqrt_by_rem A (Sm - 1) R'); [lia | exact EA' | unfold R' in *; lia] | lia].
+  - assert (0 <= Rm) as HRp by (assert (0 <= c * (W * W)) by (apply Z.mul_nonneg_nonneg; lia); lia).
+    replace (q + s1 * W) with Sm by (unfold Sm; ring).
+    assert (Rm <= 2 * Sm) as HRle.
+    { unfold Rm, Sm. destruct Hcase as [Hc|[Hc1 Hc2]].
+      + assert ((u + 1) * W <= (2 * s1) * W) by (apply Z.mul_le_mono_nonneg_r; unfold u; lia). lia.
+      + rewrite Hc1. unfold u.
+        assert ((2 * (u' - s1) + bit) * W <= (W - 1) * W) by (apply Z.mul_le_mono_nonneg_r; lia). lia. }
+    intros E. apply Ok_inj in E.
+    rewrite (Hpack c r Rm Sm Hr ER ltac:(lia) ltac:(lia)) in E.
+    assert (S = Sm /\ R = Rm) as [-> ->] by (split; congruence).
+    split; [symmetry; apply (sqrt_by_rem A Sm Rm); [lia | exact EAS | lia] | lia].
+Qed.
+
+(** the wrapper with a normalised routine that is only specified on values of the type *)
+Theorem prim_sqrt_rem_sound_bounded : forall norm bits n r, 0 <= n < 2 ^ bits ->
+  (forall m s e, m < 2 ^ bits -> norm m = Ok (s, e) -> s = Z.sqrt m /\ e = m - s * s) ->
+  prim_sqrt_rem norm bits n = Ok r -> r = sqrt_rem_spec n.
+Proof.
+  intros norm bits n r Hn Hnorm. unfold prim_sqrt_rem, sqrt_rem_spec.
+  destruct (Z.eqb_spec n 0) as [e|e]; [intros E; apply Ok_inj in E; subst n r; reflexivity|].
+  pose proof (lzeros_nonneg bits n ltac:(lia)) as Hlz.
+  assert (0 <= lzeros bits n / 2) as Hh by (apply Z.div_pos; lia).
+  pose proof (Z.div_mod (lzeros bits n) 2 ltac:(lia)) as D2. pose proof (Z.mod_pos_bound (lzeros bits n) 2 ltac:(lia)) as M2.
+  set (h := lzeros bits n / 2) in *.
+  assert (n * 2 ^ (2 * h) < 2 ^ bits) as Hm.
+  { pose proof (Z.log2_spec n ltac:(lia)) as [_ L2]. unfold lzeros in D2, M2.
+    assert (2 ^ Z.succ (Z.log2 n) * 2 ^ (2 * h) <= 2 ^ bits).
+    { rewrite <- Z.pow_add_r by (pose proof (Z.log2_nonneg n); lia). apply Z.pow_le_mono_r; lia. }
+    assert (0 < 2 ^ (2 * h)) by (apply Z.pow_pos_nonneg; lia).
+    assert (n * 2 ^ (2 * h) < 2 ^ Z.succ (Z.log2 n) * 2 ^ (2 * h)) by (apply Z.mul_lt_mono_pos_r; lia). lia. }
+  destruct (norm (n * 2 ^ (2 * h))) as [[s e0]|?|?|] eqn:E; unfold rbind; try discriminate.
+  destruct (Hnorm _ _ _ Hm E) as [Es Ee].
+  destruct (Z.eqb_spec (2 * h) 0) as [z|z].
+  - intros E2. apply Ok_inj in E2. rewrite <- E2. rewrite z in *. rewrite Z.pow_0_r, Z.mul_1_r in *. subst s e0. reflexivity.
+  - intros E2. apply Ok_inj in E2. rewrite <- E2. change (fst (s, e0)) with s.
+    replace (2 * h / 2) with h by (symmetry; rewrite Z.mul_comm; apply Z.div_mul; lia).
+    rewrite Es, sqrt_unshift by lia. reflexivity.
+Qed.
+
+(** every width, u128 included *)
+Theorem prim_sqrt_rem_asis_sound_all : forall fuel bits n r,
+  (bits = 8 \/ bits = 16 \/ bits = 32 \/ bits = 64 \/ bits = 128) ->
+  0 <= n < 2 ^ bits -> prim_sqrt_rem_asis fuel bits n = Ok r -> r = sqrt_rem_spec n.
+Proof.
+  intros fuel bits n r Hb Hn. destruct Hb as [B|[B|[B|[B|B]]]]; try (apply prim_sqrt_rem_asis_sound; [tauto|exact Hn]).
+  subst bits. unfold prim_sqrt_rem_asis. cbn [Z.eqb Pos.eqb].
+  apply prim_sqrt_rem_sound_bounded; [exact Hn|]. intros m s e Hm. apply nsqrt128_sound. exact Hm.
+Qed.
+
+Example nsqrt128_example : prim_sqrt_rem_asis 3 128 (2 ^ 127 + 12345) = Ok (sqrt_rem_spec (2 ^ 127 + 12345)).
+Proof. vm_compute. reflexivity. Qed.
